@@ -5,9 +5,9 @@ ID = "C13"
 IMPL = "c13"
 THEOREM_FILE = "Properties/C13.v"
 COQ_IMPORT = "From Pamiq Require Import Model.Trainer Check.C13."
-COQ_CASE_TYPE = "case"
-COQ_AGREE = "agree"
-COQ_PROP_OK = "prop_ok"
+COQ_CASE_TYPE = "case2"
+COQ_AGREE = "agree2"
+COQ_PROP_OK = "prop_ok2"
 RULE = ("seeded histories of sample arrivals (non-decreasing timestamps with ties) interleaved with training-thread ticks over 0-4 recording trainers "
         "with random thresholds (min size 0-6, min new 0-4) or no condition; queue size in {None,0,1,2,3,5}; buffer capacity None/2/5; up to 50 operations. "
         "Non-trivial = some conditioned trainer both ran and was refused at least once; distinct = canonical JSON.")
@@ -36,14 +36,35 @@ def gen_one(rng):
     return {"q": q, "bcap": bcap, "conds": conds, "ops": ops}
 
 
+def gen_line(rng):
+    """a collecting and a deciding thread at source-line granularity (trainer/base.py, data/interface.py), logical clock"""
+    k = rng.choice([1, 2, 2, 3, 4])
+    return {"kind": "line", "min_size": rng.choice([0, 1, 2]), "min_new": rng.choice([1, 2, 2, 3]), "q": rng.choice([None, None, 2, 5]),
+            "collects": rng.randint(1, 6), "runs": rng.randint(2, 6), "yield_between": rng.random() < 0.5,
+            "preempt_frac": sorted(round(rng.random(), 3) for _ in range(k)), "pick": rng.randrange(1000)}
+
+
+def systematic_line_cases(points):
+    """every pair (early switch, later point) of one fixed program: puts an arrival at every point of a decision"""
+    out = []
+    base = {"kind": "line", "min_size": 1, "min_new": 2, "q": None, "collects": 4, "runs": 5, "yield_between": False}
+    for pk in (0, 1):
+        for i in range(points):
+            out.append(dict(base, preempt_frac=[i / points], pick=pk))
+            out.append(dict(base, preempt_frac=[0.02, i / points], pick=pk))
+    return out
+
+
 def gen(rng, tier):
-    n = {"quick": 2000, "thorough": 40000, "search": 6000}[tier]
-    return [gen_one(rng) for _ in range(n)]
+    n, nl = {"quick": (2000, 300), "thorough": (40000, 6000), "search": (6000, 1500)}[tier]
+    return [gen_one(rng) for _ in range(n)] + [gen_line(rng) for _ in range(nl)] + systematic_line_cases(100 if tier == "quick" else 300)
 
 
 def precheck(case, obs):
     if "crash" in obs or "error" in obs:
         return {"agree": False, "prop_ok": False, "hard": True}
+    if case.get("kind") == "line":
+        return None
     for o in obs["outs"]:
         if o[0] == "junk" or (o[0] == "tick" and len(o[1]) > 1):
             return {"agree": False, "prop_ok": False}
@@ -76,14 +97,21 @@ def coq_input(case, incl):
 
 
 def coq_case(case, obs):
-    return f"({coq_input(case, obs['incl'])}, {cl(_out(o) for o in obs['outs'])})"
+    if case.get("kind") == "line":
+        evs = cl("ACollect" if e[0] == "collect" else f"(ARun {cb(e[1])})" for e in obs["events"])
+        return f"(CLine {cn(case['min_new'])} {evs})"
+    return f"(CSeq ({coq_input(case, obs['incl'])}, {cl(_out(o) for o in obs['outs'])}))"
 
 
 def coq_expected(case, obs):
+    if case.get("kind") == "line":
+        return "tt"
     return f"model_outs {coq_input(case, obs.get('incl', False))}"
 
 
 def nontrivial(case, obs):
+    if case.get("kind") == "line":
+        return obs.get("switches", 0) >= 3 and any(e[0] == "run" and e[1] for e in obs.get("events", []))
     ran, refused = set(), set()
     for o in obs.get("outs", []):
         if o[0] == "tick" and o[1]:
@@ -96,11 +124,21 @@ def nontrivial(case, obs):
 def signature(case, obs):
     if "error" in obs or "crash" in obs:
         return "raises"
+    if case.get("kind") == "line":
+        return "an-arrival-counted-for-two-runs"
     return "trainer-turns-and-conditions"
 
 
 def shrink(case):
     out = []
+    if case.get("kind") == "line":
+        pf = case.get("preempt_frac") or []
+        for i in range(len(pf)):
+            c = dict(case); c["preempt_frac"] = pf[:i] + pf[i + 1:]; out.append(c)
+        for key in ("collects", "runs"):
+            if case[key] > 1:
+                c = dict(case); c[key] = case[key] - 1; out.append(c)
+        return out
     ops = case["ops"]
     for i in range(len(ops) - 1, -1, -1):
         c = dict(case); c["ops"] = ops[:i] + ops[i + 1:]; out.append(c)
@@ -110,12 +148,18 @@ def shrink(case):
 
 
 def describe(case, obs):
+    if case.get("kind") == "line":
+        return {"input": case, "events": obs.get("events"), "preempt_used": obs.get("preempt_used"), "error": obs.get("error")}
     return {"input": case, "observed": (obs.get("outs") or [])[:20]}
 
 
 def distribution(cases, obs):
-    d = {"trainers": {}, "q": {}, "ticks": 0, "collects": 0, "runs": 0, "refusals": 0}
+    d = {"trainers": {}, "q": {}, "ticks": 0, "collects": 0, "runs": 0, "refusals": 0,
+         "line_level_cases": sum(1 for c in cases if c.get("kind") == "line"),
+         "line_level_runs": sum(1 for c, o in zip(cases, obs) if c.get("kind") == "line" for e in o.get("events", []) if e[0] == "run" and e[1])}
     for c, o in zip(cases, obs):
+        if c.get("kind") == "line":
+            continue
         d["trainers"][str(len(c["conds"]))] = d["trainers"].get(str(len(c["conds"])), 0) + 1
         d["q"][str(c["q"])] = d["q"].get(str(c["q"]), 0) + 1
         for op, y in zip(c["ops"], o.get("outs", [])):
@@ -129,7 +173,7 @@ def distribution(cases, obs):
                 d["collects"] += 1
     return d
 
-TECHNIQUE = 'Coq theorems over an executable trainer/round-robin model on top of the pipe model + tick oracle proved on the model and evaluated on the real TrainingThread.on_tick'
+TECHNIQUE = 'Coq theorems over an executable trainer/round-robin model on top of the pipe model (tick oracle; counting law: every arrival supports at most one run) + oracle evaluated on the real TrainingThread.on_tick, and the counting law on two-thread line-level interleavings of arrivals with decisions'
 LEVEL_TEXT = 'Machine-checked proof that for every number of trainers, thresholds, queue size, buffer capacity and every interleaving of arrivals and ticks: the k-th tick offers trainer k mod n regardless of the others, a conditioned trainer runs iff buffer length >= min size and fresh deliveries (newer than its previous positive decision, within the last queue-size deliveries) >= min new, a run is exactly setup/train/sync/teardown, the marker moves only on a run. Tied to /repo by driving the real Trainer/TrainersDict/TrainingThread.on_tick with recording subclasses and a scripted clock.'
 LEVEL_NOTE = "Trusted: Coq kernel + vm_compute; coq/Model/Trainer.v, DataPipe.v; recording subclasses; scripted clock. Boundary 'timestamp == marker' is a probed policy parameter."
 DESIGN_REF = 'DESIGN.md §4 C13'
